@@ -2,11 +2,11 @@
 # usage: seedtest2.sh <patch.diff> [spycheck binary]
 # Development variant of seedtest.sh: applies the change to a scratch COPY of /repo's working tree
 # (never to /repo), runs every property's rules on the copy, removes the copy. Safe to run in parallel.
-P="$1"; BIN="${2:-/verif/bin/spycheck}"
+P="$(realpath "$1")"; BIN="${SPYCHECK_BIN:-${2:-/verif/bin/spycheck}}"; VD="${VERIF_DIR:-/verif}"
 T=$(mktemp -d /tmp/seed2.XXXXXX)
 rsync -a --exclude .git /repo/ "$T/tree/"
 cd "$T/tree" || exit 2
 if GIT_DIR=/nonexistent git apply --whitespace=nowarn "$P" 2>/dev/null || patch -p1 -s --no-backup-if-mismatch -i "$P" >/dev/null 2>&1; then echo "APPLY=ok"; else echo "APPLY=failed"; rm -rf "$T"; exit 3; fi
 export GOFLAGS=-mod=mod GOPROXY=off GOSUMDB=off GOTOOLCHAIN=local GOWORK=off
-"$BIN" -verif /verif -repo "$T/tree" -prop all -out "$T/ev" 2>&1 | grep -E "^(VIOLATION|UNDECIDED|  C[0-9][0-9]\.R|checker panic)" | cut -c1-300
+"$BIN" -verif "$VD" -repo "$T/tree" -prop all -out "$T/ev" 2>&1 | grep -E "^(VIOLATION|UNDECIDED|  C[0-9][0-9]\.R|checker panic)" | cut -c1-300
 cd /; rm -rf "$T"
